@@ -192,13 +192,20 @@ def modules_part(sg, rep):
             if not all(np.allclose(p, q, rtol=1e-6) and p.shape == q.shape for p, q in zip(*outs)):
                 rep.violation("neuron-vs-linear:bias=%s" % bias, "Neuron(%d) and Linear(%d, 1) differ: %s vs %s" % (n_in, n_in, outs[0][0].tolist(), outs[1][0].tolist()), dict(kind="neuron"))
     # Sequential = function composition (registration order); an empty Sequential composes nothing
-    for k in (0, 1, 2, 3):
+    for k in (0, 1, 2, 3, -2, -3):        # negative: the same module instance appears at several positions
         for named in (False, True):
             rep.case("sequential:%d:%s" % (k, named))
-            mods = [nn.Linear(2, 2) for _ in range(k)]
+            if k >= 0:
+                mods = [nn.Linear(2, 2) for _ in range(k)]
+            else:
+                base = [nn.Linear(2, 2), nn.Tanh()]
+                mods = [base[0], base[1], base[0]] if k == -3 else [base[0], base[0]]
+                if named:
+                    continue
             for j, m in enumerate(mods):
-                m.weight.data = (pat_a(j + 1, 4).reshape(2, 2) / 4).astype(np.float32)
-                m.bias.data = pat_a(j + 2, 2).astype(np.float32)
+                if hasattr(m, "weight"):
+                    m.weight.data = (pat_a(j + 1, 4).reshape(2, 2) / 4).astype(np.float32)
+                    m.bias.data = pat_a(j + 2, 2).astype(np.float32)
             seq = nn.Sequential(OrderedDict(("m%d" % (k - j), m) for j, m in enumerate(mods))) if named else nn.Sequential(*mods)
             x = sg.Tensor(pat_a(1, 4).reshape(2, 2).astype(np.float32))
             want = x
